@@ -226,12 +226,16 @@ def expr_kind(enc):
 # --------------------------------------------------------------------------
 
 
+def add_entries(entries, start=0):
+    for n, (run, tn, kn, an, sn, vn) in enumerate(entries, start):
+        alg = sc.make_alg(an, (1, 1, 0), [(sn, (1, 1, 0), [(vn, (1, 1, 0), n)])])
+        sc.dataset(alg, kn, run, tn).update()
+
+
 def build_store(entries):
     store = sc.Store(prefix='verif_c17_')
     store.open()
-    for n, (run, tn, kn, an, sn, vn) in enumerate(entries):
-        alg = sc.make_alg(an, (1, 1, 0), [(sn, (1, 1, 0), [(vn, (1, 1, 0), n)])])
-        sc.dataset(alg, kn, run, tn).update()
+    add_entries(entries)
     return store
 
 
@@ -292,9 +296,15 @@ class Checker:
         self.execs = 0
         self.found = []
         self.sigs = set()
+        self.sequence = None  # (plan, seed) of the query sequence this checker is part of, see run_store
+        self.growth = None  # {'first': n, 'stride': k}: the store held only its first n entries when the queries were first asked
 
     def flag(self, clause, signature, inp, observed, expected):
         inp = dict(inp, store=self.spec)
+        if self.sequence is not None:
+            inp['sequence'] = {'plan': self.sequence[0], 'seed': self.sequence[1]}
+        if self.growth is not None:
+            inp['growth'] = dict(self.growth)
         self.found.append({'clause': clause, 'signature': signature, 'input': inp, 'observed': observed, 'expected': expected})
 
     def find(self, query, index, limit):
@@ -435,6 +445,7 @@ def run_store(spec, plan, seed, deadline=None):
     store = build_store(spec)
     try:
         ck = Checker(spec, deadline)
+        ck.sequence = (dict(plan), seed)
         all_opts = list(itertools.product(OPTS, repeat=5))
         exprs = find_expressions()
         # (a) every name-constraint combination x a few run-id expressions
@@ -464,6 +475,37 @@ def run_store(spec, plan, seed, deadline=None):
 
 def _run_store_args(args):
     return run_store(*args)
+
+
+GROWTH_PAGES = [(0, None), (1, 2)]
+
+
+def run_growth(spec, first, stride, deadline=None):
+    '''the same queries before and after the store grew by entries that put further ids behind names already asked for
+    (the same algorithm name in another task, a state vector under another algorithm ...): the second answers must be
+    those of the grown store'''
+    sc.install()
+    sc.fast_digest(True)
+    store = build_store(spec[:first])
+    try:
+        ck = Checker(spec, deadline)
+        ck.growth = {'first': first, 'stride': stride}
+        queries = [query_of(None, opts) for opts in list(itertools.product(OPTS, repeat=5))[::stride]]
+        for q in queries:
+            ck.check_find(q, GROWTH_PAGES, concat=False)
+        add_entries(spec[first:], first)
+        ck.entries = prime_entries()
+        for q in queries:
+            ck.check_find(q, GROWTH_PAGES, concat=False)
+        for level in LEVELS[:4]:
+            ck.check_facet(query_of(None, (None,) * 5), level)
+        return ck.found, ck.execs, len(ck.sigs), ck.skipped
+    finally:
+        store.destroy()
+
+
+def _run_growth_args(args):
+    return run_growth(*args)
 
 
 def run_scrub(seed, ntriples, deadline=None):
@@ -509,6 +551,8 @@ def run(tier: str, seed: int) -> dict:
     else:
         results = [run_store(*j) for j in jobs]
         scrubs = [run_scrub(seed, ntriples, deadline)]
+    gjobs = [(spec, 6, 13 if tier == 'quick' else 3, deadline) for spec in stores]
+    results = list(results) + [run_growth(*g) for g in gjobs]
     viol = sc.Violations()
     execs = distinct = skipped = 0
     for found, n, d, sk in list(results) + list(scrubs):
@@ -530,7 +574,7 @@ def run(tier: str, seed: int) -> dict:
             f'{len(stores)} stores of 12 entries (first one fixed, others seeded); per store: (a) all 1024 name-constraint combinations x '
             'a few run-id expressions, (b) every run-id expression of the grammar x a few name combinations with every (index, limit) page '
             'and the page concatenations, (c) seeded random mixtures incl. unknown names, (d) facets of the 4 name levels targets..svs; '
-            'plus _scrub alone on every single atom, all pairs of atoms and seeded longer expressions / object lists; "cases" = calls of '
+            'plus, per store, every 13th (thorough: 3rd) name-constraint combination asked on the first 6 entries and again after the other 6 were stored; plus _scrub alone on every single atom, all pairs of atoms and seeded longer expressions / object lists; "cases" = calls of '
             'find/facet/_scrub on the real code, "distinct" = distinct (store, query) pairs + distinct _scrub expressions; '
             'the quick tier thins (a),(b),(d) by strides'
         ),
@@ -550,6 +594,10 @@ def replay(case: dict) -> dict:
     found = []
     if case.get('kind') == 'scrub':
         check_scrub(case['runids'], [0], found)
+    elif case.get('growth'):
+        same = lambda f: all(f['input'].get(k) == case.get(k) for k in ('kind', 'query', 'index', 'limit'))  # noqa: E731
+        seq, _e, _s, _k = run_growth(case['store'], case['growth']['first'], case['growth']['stride'])
+        found = [f for f in seq if same(f)]
     else:
         store = build_store(case['store'])
         try:
@@ -563,6 +611,12 @@ def replay(case: dict) -> dict:
             found = ck.found
         finally:
             store.destroy()
+        if not found and case.get('sequence'):
+            # the answer may depend on the queries asked before on the same store (a cache in the code under test):
+            # re-run the whole query sequence of that store and look for the same query
+            same = lambda f: all(f['input'].get(k) == case.get(k) for k in ('kind', 'query', 'index', 'limit'))  # noqa: E731
+            seq, _e, _s, _k = run_store(case['store'], case['sequence']['plan'], case['sequence']['seed'])
+            found = [f for f in seq if same(f)]
     return {
         'reproduced': bool(found),
         'observed': sc.jsonable([f['observed'] for f in found[:3]]),
